@@ -35,6 +35,17 @@ func runConc(env *Env) error {
 		if len(shared.Kids) == 0 {
 			shared.Kids = append(shared.Kids, &WNode{Name: "only", MTime: 1400000001, Content: Content{{Kind: 'g', N: 70000, A: 5}}})
 		}
+		// two disc images with different sector sizes: their sector-size detection runs inside OPEN_FILE, on every connection
+		cdA, cdB := 2352, []int{2048, 2336, 2448}[env.Rnd.Intn(3)]
+		withCD := i%10 == 1 // (two 2 MiB images make the model runs slow: every client session carries the world)
+		if withCD && nclients > 3 && env.Tier != "thorough" {
+			nclients = 3
+		}
+		if withCD && shared.Child("cdA.bin") == nil && shared.Child("cdB.bin") == nil {
+			shared.Kids = append(shared.Kids,
+				&WNode{Name: "cdA.bin", MTime: 1400000010, Content: genCDImage(env, cdA, false, (0x200000+cdA-1)/cdA+3)},
+				&WNode{Name: "cdB.bin", MTime: 1400000011, Content: genCDImage(env, cdB, true, (0x200000+cdB-1)/cdB+3)})
+		}
 		r := &WNode{Name: "R", Dir: true, MTime: 1500000000, Kids: []*WNode{shared}}
 		for k := 0; k < nclients; k++ {
 			r.Kids = append(r.Kids, &WNode{Name: fmt.Sprintf("priv%d", k), Dir: true, MTime: 1500000100})
@@ -64,7 +75,14 @@ func runConc(env *Env) error {
 			n := 10 + env.Rnd.Intn(40)
 			var rs []*Req
 			for len(rs) < n {
-				switch env.Rnd.Intn(12) {
+				x := env.Rnd.Intn(14)
+				if !withCD && x == 11 {
+					x = 12
+				}
+				if withCD && x < 6 {
+					x = 11
+				}
+				switch x {
 				case 0, 1:
 					rs = append(rs, &Req{Op: opOpenFile, Path: pick(sfiles)})
 				case 2, 3, 4:
@@ -85,6 +103,10 @@ func runConc(env *Env) error {
 				case 10:
 					nm := fmt.Sprintf("%s/u%d", priv, env.Rnd.Intn(3))
 					rs = append(rs, &Req{Op: opOpenFile, Path: nm}, &Req{Op: opReadFile, N: 80000, Off: 0}, &Req{Op: opDeleteFile, Path: nm})
+				case 11:
+					img := []string{"/shared/cdA.bin", "/shared/cdB.bin"}[env.Rnd.Intn(2)]
+					rs = append(rs, &Req{Op: opOpenFile, Path: img}, &Req{Op: opReadCD, Start: uint32(env.Rnd.Intn(800)), Cnt: uint32(1 + env.Rnd.Intn(3))},
+						&Req{Op: opReadCD, Start: uint32(env.Rnd.Intn(800)), Cnt: uint32(env.Rnd.Intn(2))})
 				default:
 					rs = append(rs, &Req{Op: opGetDirSize, Path: "/shared"}, &Req{Op: opOpenFile, Path: "/CLOSEFILE"})
 				}
